@@ -69,7 +69,8 @@ impl Case {
         let body = raw_body
             .replace("@@HI@@", &format!("hi{}", self.id))
             .replace("@@HB@@", &format!("hb{}", self.id))
-            .replace("@@I@@", &self.aux("i"));
+            .replace("@@I@@", &self.aux("i"))
+            .replace("@@IS@@", &self.aux("is"));
         let mut out = self.place_templates(&n, body);
         if raw_body.contains("@@HI@@") || raw_body.contains("@@HB@@") {
             out.insert(
@@ -80,6 +81,15 @@ impl Case {
                         "{{% component hi{id}(v=1, w=\"d\") %}}[{{{{ v }}}}{{{{ w.b }}}}]{{% endcomponent hi{id} %}}{{% component hb{id}(v=1) %}}<{{{{ v }}}}{{{{ body }}}}>{{% endcomponent hb{id} %}}",
                         id = self.id
                     ),
+                ),
+            );
+        }
+        if raw_body.contains("@@IS@@") {
+            out.insert(
+                0,
+                (
+                    self.aux("is"),
+                    "{% if a.b.b == \"LOOP\" %}L{% else %}C{% endif %}{{ a.b.b | upper }}{{ a.b.c.b ~ \"!\" }}{{ b.b.b | default(value=\"nb\") }}{% if c.b.c %}{{ c.b.c.b }}{% endif %}{{ lv?.b | default(value=\"nl\") }}{{ a.b.c.b }}{{ b.b }}{% set z = c.b %}{{ z.b }}".to_string(),
                 ),
             );
         }
@@ -176,7 +186,7 @@ pub fn path(rng: &mut Rng, loop_vars: &[&str]) -> String {
     }
 }
 
-pub const N_SHAPES: usize = 54;
+pub const N_SHAPES: usize = 59;
 
 /// Every control-flow / short-circuit shape, with variable paths right before and after each
 /// jump and each jump target. `in_loop`: `break` / `continue` are legal here.
@@ -264,6 +274,42 @@ pub fn shape(k: usize, rng: &mut Rng, loop_vars: &[&str], in_loop: bool) -> (&'s
             format!("{{% set m = {{\"k\": {} | safe, \"l\": \"<i>&\" | safe, \"n\": \"<u>&\"}} %}}{{{{ m.k }}}}{{{{ m.l }}}}{{{{ m.n }}}}{{{{ m }}}}", p()),
         ),
         53 => ("dump_paths", format!("{{{{ __tera_context.a.b.b }}}}{{% if __tera_context.{} is defined %}}{{{{ __tera_context.b.b.c.b }}}}{{% endif %}}", rng.pick(&ROOTS))),
+        // a template-local variable with the NAME of a context variable (different field values),
+        // then loaded, written, tested and re-assigned paths through it, outside any loop
+        54 | 55 => {
+            let r = *rng.pick(&ROOTS);
+            let kw = if k == 54 { "set" } else { "set_global" };
+            (
+                if k == 54 { "shadow_set" } else { "shadow_set_global" },
+                format!(
+                    "{{% {kw} {r} = {{\"b\": {{\"b\": \"SET\", \"c\": {{\"b\": \"<s>&\" }} }}, \"c\": [7] }} %}}{{% if {r}.b.b == \"SET\" %}}y{{% else %}}n{{% endif %}}{{{{ {r}.b.b | upper }}}}{{{{ {r}.b.c.b ~ \"!\" }}}}{{% set q = {r}.b.c %}}{{{{ q.b }}}}{{{{ {r}.b.b }}}}{{{{ {r}.c | length }}}}{{{{ {r}.b.x | default(value=\"dx\") }}}}{{{{ {} }}}}",
+                    p()
+                ),
+            )
+        }
+        56 => {
+            let r = *rng.pick(&ROOTS);
+            ("shadow_set_block", format!("{{% set {r} %}}txt{{{{ {} }}}}{{% endset %}}{{{{ {r}.b | default(value=\"nb\") }}}}{{% if {r}.b %}}m{{% else %}}s{{% endif %}}{{{{ {r} ~ \"!\" }}}}{{{{ {r}.b is defined }}}}", p()))
+        }
+        // an included template executed inside the includer's loop reads the loop variable's fields
+        57 => {
+            let r = *rng.pick(&ROOTS);
+            (
+                "include_in_loop",
+                format!(
+                    "{{% for {r} in [{{\"b\": {{\"b\": \"LOOP\", \"c\": {{\"b\": \"<l>&\" }} }} }}] %}}{{% include \"@@IS@@\" %}}{{% endfor %}}{{% for lv in [{}] %}}{{% include \"@@IS@@\" %}}{{% endfor %}}",
+                    p()
+                ),
+            )
+        }
+        // direct (escaped) writes at every level of nested captures, with text in between
+        58 => (
+            "nested_capture",
+            format!(
+                "{{% filter upper %}}o{{{{ {} }}}}{{% set v %}}i{{{{ {} }}}}j{{% filter lower %}}K{{{{ {} }}}}L{{% endfilter %}}{{% endset %}}m{{{{ v | lower }}}}n{{{{ {} }}}}{{% <@@HB@@ v={{ 1 }}> %}}p{{{{ {} }}}}q{{% </@@HB@@> %}}{{% endfilter %}}r{{{{ {} }}}}",
+                p(), p(), p(), p(), p(), p()
+            ),
+        ),
         _ => ("write", format!("{{{{ {} }}}}", p())),
     }
 }
